@@ -775,6 +775,7 @@ def run_batch(ctx, kinds, profile, n, maxops, maxkeys, corpus_glob):
     runs = []
     leftovers = 0
     cases = []
+    seen = {}
     for f in sorted(glob.glob(str(CORPUS_DIR / corpus_glob))):
         case = json.load(open(f))
         case = case.get("case", case)
@@ -803,6 +804,11 @@ def run_batch(ctx, kinds, profile, n, maxops, maxkeys, corpus_glob):
         f = run.first_fail(kinds)
         if f is not None:
             sig = f[3]
+            key = json.dumps(sig, sort_keys=True)
+            seen[key] = seen.get(key, 0) + 1
+            ctx.count("oracle:" + sig["kind"] + (":unsafe-purge" if sig.get("unsafe_purge") else ""))
+            if seen[key] > 2:
+                continue            # same signature again: already reported with a shrunk input
             small = shrink(case, sig)
             r2, _ = replay_history(small)
             f2 = r2.fails.get(sig["kind"]) or f
